@@ -7,6 +7,7 @@ mod layout;
 mod rng;
 mod seams;
 mod spec;
+mod spec_vectors;
 mod suite;
 mod world;
 
@@ -65,7 +66,7 @@ fn main() {
         "check" => {
             let id: &'static str = Box::leak(pos.first().cloned().unwrap_or_else(|| usage()).into_boxed_str());
             println!("VERIF_SEED={seed} tier={tier:?} threads={threads} check={id}");
-            let ctx = Ctx { id, tier, seed, threads, start: Instant::now(), verif_dir: verif_dir.into() };
+            let ctx = Ctx { id, tier, seed, threads, start: Instant::now(), verif_dir: verif_dir.clone().into() };
             let rep = match checks::run_check(id, &ctx) {
                 Some(r) => r,
                 None => {
@@ -76,6 +77,15 @@ fn main() {
             let code = driver::finish(&ctx, level_of(id), rep);
             std::process::exit(code)
         }
+        "vectors" => match spec_vectors::check_all(std::path::Path::new(&verif_dir)) {
+            Ok(n) => println!("Model B reproduces all {n} RFC 9807 vectors"),
+            Err(e) => {
+                for l in e {
+                    println!("MODEL-B-MISMATCH {l}");
+                }
+                std::process::exit(2)
+            }
+        },
         "replay" => {
             let path = pos.first().cloned().unwrap_or_else(|| usage());
             let rf: ReplayFile = serde_json::from_slice(&std::fs::read(&path).expect("read replay file")).expect("parse replay file");
